@@ -167,9 +167,31 @@ def _sweep(acc, shard, nshards, seed, tier, pairs=False):
                 acc.check(case, True, ["sweep:" + pos])
 
 
+EDGE_URLS = ["http://example.com/a/b?x=1#f", "https://lemonde.fr", "example.com/p", "//b2.net/x y", "HTTP://A.com:80/%7Ex/", "http://u:p@x.org/?q"]
+
+
+def _edges(acc, shard, nshards, seed, tier):
+    """every arrangement of whitespace and control characters at the two ends (whitespace outside / inside the control character)"""
+    import itertools
+    ws = T.WHITESPACE + ["\u00a0", "\u2003", "\x0b", "\x1c"]
+    cc = T.CONTROL_CHARS
+    idx = 0
+    for u in EDGE_URLS:
+        for w, c in itertools.product(ws, cc):
+            for lead, trail in ((w + c, ""), (c + w, ""), ("", w + c), ("", c + w), (c + w, w + c), (w + c + w, c + w + c), (c + c + w, w + c + c)):
+                idx += 1
+                if idx % nshards != shard:
+                    continue
+                case = {"kind": "spelling", "url": u, "variant": lead + u + trail, "transforms": ["whitespace", "control-chars"],
+                        "quoted": bool(idx & 1), "strip_fragment": bool(idx & 2), "default_protocol": "https"}
+                acc.check(case, True, ["edge-arrangement"] if idx % 7 == 0 else ())
+
+
 def campaigns(tier, seed):
     quick = tier == "quick"
     return [
+        Campaign("edge-arrangements", _edges, "enumeration", exhaustive=True,
+                 bounds="%d URLs x 10 whitespace x 9 control characters x 7 arrangements at the two ends" % len(EDGE_URLS)),
         Campaign("idem-token-sweep", _sweep, "enumeration", exhaustive=True,
                  bounds="every token%s in 6 positions of a carrier URL x strip_fragment; idempotence + 4 mode round trips" % (
                      "" if quick else " and ordered token pair"), params={"pairs": not quick}),
